@@ -607,8 +607,10 @@ fn c18_multi(stats: &mut Stats) -> Vec<Failure> {
             vec!["vendor/../a.lua", "a.lua"],
             vec!["a.lua", "../shared/a.lua"],
             vec![".", "vendor/../a.lua"],
-            // a glob list that only excludes: everything else is still checked (only proj/a.lua is below `.`)
+            // a glob list that only excludes: everything else is still checked
             vec!["--glob", "!vendor/**", "--", "."],
+            // the traversal of `src` meets a symbolic link to the second file
+            vec!["a.lua", "src"],
         ] {
             for fmt in ["Unified", "Json", "Summary", "Standard"] {
                 let mut t = Tree::default();
@@ -616,6 +618,7 @@ fn c18_multi(stats: &mut Stats) -> Vec<Failure> {
                 t.add("shared/a.lua", second.as_bytes());
                 t.add("shared/lua/", b"");
                 t.link("proj/vendor", "../shared/lua");
+                t.link("proj/src/util.lua", "../../shared/a.lua");
                 let mut argv: Vec<String> = vec!["--check".into(), "--color".into(), "Never".into(), "--output-format".into(), fmt.into()];
                 argv.extend(args.iter().map(|x| x.to_string()));
                 scs.push(Scenario {
@@ -630,16 +633,30 @@ fn c18_multi(stats: &mut Stats) -> Vec<Failure> {
         let mut f = vec![];
         let first_differs = s.desc.contains("first=\"local   x");
         let second_differs = s.desc.contains("second=\"local   y");
-        let only_first = s.desc.contains("--glob");
-        let n = first_differs as usize + if only_first { 0 } else { second_differs as usize };
+        // (below `.` the second file is reached as well: through the link src/util.lua)
+        let n = first_differs as usize + second_differs as usize;
         let fmt = s.run.argv[4].as_str();
         let stdout = String::from_utf8_lossy(&o.stdout).to_string();
         let reported = match fmt {
             "Standard" => stdout.lines().filter(|l| l.starts_with("Diff in ")).count(),
             "Unified" => stdout.lines().filter(|l| l.starts_with("--- ")).count(),
             "Json" => stdout.lines().filter(|l| serde_json::from_str::<serde_json::Value>(l).map(|v| v.get("mismatches").is_some()).unwrap_or(false)).count(),
-            _ => stdout.lines().filter(|l| l.trim_end().ends_with("a.lua")).count(),
+            _ => stdout.lines().filter(|l| l.trim_end().ends_with(".lua")).count(),
         };
+        // the summary names exactly the differing files, as the arguments spell them
+        if fmt == "Summary" && s.run.argv.len() == 7 && !s.run.argv[5].starts_with('-') && s.run.argv[5] != "." && s.run.argv[6] != "src" {
+            let listed: std::collections::BTreeSet<String> = stdout.lines().map(|l| l.trim().to_string()).filter(|l| l.ends_with(".lua")).collect();
+            let mut want = std::collections::BTreeSet::new();
+            if first_differs {
+                want.insert(s.run.argv.iter().skip(5).find(|a| *a == "a.lua").cloned().unwrap_or_default());
+            }
+            if second_differs {
+                want.insert(s.run.argv.iter().skip(5).find(|a| *a != "a.lua").cloned().unwrap_or_default());
+            }
+            if listed != want {
+                f.push(("summary-wrong".into(), format!("the summary lists {:?}, the differing files are {:?}", listed, want)));
+            }
+        }
         if reported != n {
             f.push(("diff-set".into(), format!("{} files are reported as differing, {} differ", reported, n)));
         }
@@ -764,6 +781,10 @@ pub enum Kind {
     Crlf,
     /// formatted except that the final line terminator is missing
     NoEol,
+    /// needs formatting, and its formatted text has exactly the same length (only the quotes change)
+    SameLen,
+    /// mode 0444 and already formatted: nothing has to be written, so nothing fails
+    ReadOnlyFormatted,
     /// mode 0444, run as an unprivileged user
     ReadOnly,
     /// mode 0000, run as an unprivileged user
@@ -784,13 +805,16 @@ impl Kind {
             Kind::Unparseable2 => 'Q',
             Kind::Crlf => 'L',
             Kind::NoEol => 'N',
+            Kind::SameLen => 'S',
+            Kind::ReadOnlyFormatted => 'Z',
             Kind::ReadOnly => 'R',
             Kind::Unreadable => 'X',
         }
     }
     pub fn bytes(self, i: usize) -> Vec<u8> {
         match self {
-            Kind::Formatted | Kind::NotDir => format!("local x{} = 1\n", i).into_bytes(),
+            Kind::Formatted | Kind::NotDir | Kind::ReadOnlyFormatted => format!("local x{} = 1\n", i).into_bytes(),
+            Kind::SameLen => format!("local g{} = 'hi'\n", i).into_bytes(),
             Kind::Unformatted | Kind::Immutable | Kind::ReadOnly | Kind::Unreadable => format!("local   x{}  =  2\n", i).into_bytes(),
             Kind::Unparseable => format!("local x{} = = 1\n", i).into_bytes(),
             Kind::Unparseable2 => format!("local M{} = {{}}\nM{}.count   =   0\nM{}.reset;\nreturn M{}\n", i, i, i, i).into_bytes(),
@@ -808,7 +832,7 @@ impl Kind {
         }
     }
     pub fn fails(self) -> bool {
-        !matches!(self, Kind::Formatted | Kind::Unformatted | Kind::Crlf | Kind::NoEol)
+        !matches!(self, Kind::Formatted | Kind::Unformatted | Kind::Crlf | Kind::NoEol | Kind::SameLen | Kind::ReadOnlyFormatted)
     }
 }
 
@@ -838,6 +862,13 @@ fn layout_paths(kinds: &[Kind], layout: &str) -> Vec<String> {
         .enumerate()
         .map(|(i, _)| match layout {
             "flat" | "dir" | "linkdir" => format!("a{}.lua", i),
+            "subdir+overlap" => {
+                if i % 2 == 0 {
+                    format!("a{}.lua", i)
+                } else {
+                    format!("sub/a{}.lua", i)
+                }
+            }
             // the last file has a name the traversal does not select and is named explicitly after the directory
             "dir+txt" => {
                 if i + 1 == kinds.len() {
@@ -861,9 +892,12 @@ pub fn c13(thorough: bool, stats: &mut Stats) -> Vec<Failure> {
     let alpha = [Kind::Formatted, Kind::Unformatted, Kind::Unparseable, Kind::InvalidUtf8, Kind::Missing, Kind::Crlf, Kind::NoEol, Kind::NotDir];
     let mut scs = vec![];
     for ks in multisets(&alpha, if thorough { 4 } else { 3 }, false) {
-        for layout in ["flat", "dir", "subdir", "dir+txt", "linkdir"] {
+        for layout in ["flat", "dir", "subdir", "dir+txt", "linkdir", "subdir+overlap"] {
             if layout != "flat" && (ks.contains(&Kind::Missing) || ks.contains(&Kind::NotDir)) {
                 continue;
+            }
+            if layout == "subdir+overlap" && ks.len() < 2 {
+                continue; // (no sub-directory without a second file)
             }
             for fmt in ["Standard", "Unified", "Json", "Summary"] {
                 for verify in [false, true] {
@@ -899,6 +933,10 @@ pub fn c13(thorough: bool, stats: &mut Stats) -> Vec<Failure> {
                                 argv.push(if layout == "linkdir" { "d" } else { "." }.into());
                                 if layout == "dir+txt" {
                                     argv.push("e.txt".into());
+                                }
+                                // a directory and one of its own sub-directories: every file still counts once
+                                if layout == "subdir+overlap" {
+                                    argv.push("sub".into());
                                 }
                             }
                             let desc = format!(
@@ -964,6 +1002,20 @@ pub fn c13(thorough: bool, stats: &mut Stats) -> Vec<Failure> {
                     let desc = format!("C13 kinds={} layout={} rot=0 format={} verify={} threads=default opt={}", ks.iter().map(|k| k.letter()).collect::<String>(), layout, fmt, *oname == "verify-reject", oname);
                     scs.push(Scenario { desc, tree: t, run: Run { argv, env: oenv.iter().map(|(a, b)| (a.to_string(), b.to_string())).collect(), ..Run::default() } });
                 }
+            }
+        }
+    }
+    // the text comes from stdin (`-` is a file argument like any other as far as the status and the diff are concerned)
+    for k in [Kind::Formatted, Kind::Unformatted, Kind::Unparseable, Kind::Crlf, Kind::NoEol] {
+        for fmt in ["Standard", "Unified", "Json", "Summary"] {
+            for extra in [vec![], vec!["--stdin-filepath", "src/x.lua"]] {
+                let mut t = Tree::default();
+                t.add("keep.lua", b"local x = 1\n");
+                let mut argv: Vec<String> = vec!["--check".into(), "--color".into(), "Never".into(), "--output-format".into(), fmt.into()];
+                argv.extend(extra.iter().map(|x| x.to_string()));
+                argv.push("-".into());
+                let desc = format!("C13 kinds={} layout=stdin rot=0 format={} verify=false threads=default opt=stdin{}", k.letter(), fmt, if extra.is_empty() { "" } else { "@src/x.lua" });
+                scs.push(Scenario { desc, tree: t, run: Run { argv, stdin: Some(k.bytes(0)), ..Run::default() } });
             }
         }
     }
@@ -1035,7 +1087,7 @@ pub fn c13(thorough: bool, stats: &mut Stats) -> Vec<Failure> {
                 }
                 n
             }
-            _ => stdout.lines().filter(|l| l.trim_end().ends_with(".lua") || l.trim_end().ends_with("e.txt")).count(),
+            _ => stdout.lines().filter(|l| l.trim_end().ends_with(".lua") || l.trim_end().ends_with("e.txt") || l.trim() == "stdin").count(),
         };
         if reported != n_unf {
             f.push(("diff-set".into(), format!("{} files are reported as differing, {} differ", reported, n_unf)));
@@ -1066,7 +1118,7 @@ pub fn unprivileged_supported() -> bool {
 }
 
 pub fn c14(thorough: bool, stats: &mut Stats) -> Vec<Failure> {
-    let mut alpha = vec![Kind::Unformatted, Kind::Formatted, Kind::Unparseable, Kind::VerifyFail, Kind::Crash, Kind::InvalidUtf8, Kind::Immutable, Kind::Unparseable2];
+    let mut alpha = vec![Kind::Unformatted, Kind::Formatted, Kind::Unparseable, Kind::VerifyFail, Kind::Crash, Kind::InvalidUtf8, Kind::Immutable, Kind::Unparseable2, Kind::SameLen, Kind::ReadOnlyFormatted];
     if !immutable_supported() {
         // without a working immutable attribute the "unwritable" kind cannot be produced: leave it out and say so
         alpha.retain(|k| *k != Kind::Immutable);
@@ -1078,10 +1130,10 @@ pub fn c14(thorough: bool, stats: &mut Stats) -> Vec<Failure> {
     let mut alpha_m = alpha.clone();
     alpha_m.push(Kind::Missing);
     alpha_m.push(Kind::NotDir);
-    let alpha_u = vec![Kind::Unformatted, Kind::Formatted, Kind::ReadOnly, Kind::Unreadable, Kind::Unparseable];
+    let alpha_u = vec![Kind::Unformatted, Kind::Formatted, Kind::ReadOnly, Kind::Unreadable, Kind::Unparseable, Kind::ReadOnlyFormatted];
     let mut spaces: Vec<(Vec<Vec<Kind>>, Option<u32>)> = vec![(multisets(&alpha_m, if thorough { 4 } else { 3 }, true), None)];
     if unprivileged_supported() {
-        spaces.push((multisets(&alpha_u, 3, true).into_iter().filter(|ks| ks.iter().any(|k| matches!(k, Kind::ReadOnly | Kind::Unreadable))).collect(), Some(NOBODY)));
+        spaces.push((multisets(&alpha_u, 3, true).into_iter().filter(|ks| ks.iter().any(|k| matches!(k, Kind::ReadOnly | Kind::Unreadable | Kind::ReadOnlyFormatted))).collect(), Some(NOBODY)));
     } else {
         stats.machinery.insert("C14: cannot run the binary as an unprivileged user here, the read-only / unreadable kinds are left out".into(), 1);
     }
@@ -1125,7 +1177,7 @@ pub fn c14(thorough: bool, stats: &mut Stats) -> Vec<Failure> {
                                 t.add(&paths[i], &k.bytes(i));
                                 match k {
                                     Kind::Immutable => post.push((paths[i].clone(), "immutable".to_string())),
-                                    Kind::ReadOnly => post.push((paths[i].clone(), "mode444".to_string())),
+                                    Kind::ReadOnly | Kind::ReadOnlyFormatted => post.push((paths[i].clone(), "mode444".to_string())),
                                     Kind::Unreadable => post.push((paths[i].clone(), "mode000".to_string())),
                                     _ => {}
                                 }
@@ -1194,7 +1246,7 @@ pub fn c14(thorough: bool, stats: &mut Stats) -> Vec<Failure> {
             }
             return f;
         }
-        let any_fail = kinds.iter().any(|k| !matches!(k, 'U' | 'F'));
+        let any_fail = kinds.iter().any(|k| !matches!(k, 'U' | 'F' | 'S' | 'Z'));
         let want = if any_fail { 2 } else { 0 };
         if o.code != want {
             f.push(("exit-status".into(), format!("exit status {} but expected {}", o.code, want)));
@@ -1207,7 +1259,7 @@ pub fn c14(thorough: bool, stats: &mut Stats) -> Vec<Failure> {
                 continue;
             };
             let before = &o.before[p];
-            if k == 'U' {
+            if k == 'U' || k == 'S' {
                 let want = lib_format(&String::from_utf8_lossy(b), &Cfg::default(), 120).unwrap();
                 if after.0 != want.as_bytes() {
                     f.push(("not-formatted".into(), format!("{} (a healthy unformatted file) is {:?} after the run, expected {:?}", p, String::from_utf8_lossy(&after.0), want)));
@@ -1216,10 +1268,10 @@ pub fn c14(thorough: bool, stats: &mut Stats) -> Vec<Failure> {
                 if after.0 != *b {
                     f.push(("failing-file-modified".into(), format!("{} (kind {}) changed: {:?}", p, k, String::from_utf8_lossy(&after.0).chars().take(80).collect::<String>())));
                 }
-                if k == 'F' && (after.1 != before.1 || after.2 != before.2) {
+                if (k == 'F' || k == 'Z') && (after.1 != before.1 || after.2 != before.2) {
                     f.push(("formatted-file-rewritten".into(), format!("{} is already formatted but was rewritten (mtime / inode changed)", p)));
                 }
-                if k != 'F' && (after.2 != before.2 || after.3 != before.3) {
+                if k != 'F' && k != 'Z' && (after.2 != before.2 || after.3 != before.3) {
                     f.push(("failing-file-replaced".into(), format!("{} (kind {}) has been replaced: inode {} -> {}, mode {:o} -> {:o}", p, k, before.2, after.2, before.3, after.3)));
                 }
             }
@@ -1839,8 +1891,58 @@ fn c16_outside(stats: &mut Stats) -> Vec<Failure> {
             }
         }
     }
+    // the working directory lies BELOW a directory whose .styluaignore has a pattern anchored at that directory (`/build/`):
+    // the pattern names repo/build, not repo/pkg/build — with and without --search-parent-directories
+    for sp in [false, true] {
+        for arg in [".", "build", "build/x.lua", "../build", ".."] {
+            let mut t = Tree::default();
+            t.add("repo/.styluaignore", b"/build/\n");
+            t.add("repo/build/y.lua", UNF.as_bytes());
+            t.add("repo/pkg/a.lua", UNF.as_bytes());
+            t.add("repo/pkg/build/x.lua", UNF.as_bytes());
+            let mut argv: Vec<String> = vec!["--color".into(), "Never".into()];
+            if sp {
+                argv.push("--search-parent-directories".into());
+            }
+            argv.push("--".into());
+            argv.push(arg.into());
+            let desc = format!("C16 below-anchored-ignore args={:?} search_parents={}", arg, sp);
+            scs.push(Scenario { desc, tree: t, run: Run { argv, cwd: "repo/pkg".into(), ..Run::default() } });
+        }
+    }
     run_all(scs, "E2-C16", stats, |s, o| {
         let mut f = vec![];
+        if s.desc.starts_with("C16 below-anchored-ignore") {
+            // what the argument selects by itself; repo/build/ is excluded by the ancestor's pattern when the traversal starts
+            // at or above repo (the ignore file of a parent directory of the traversal root is honoured by the walker)
+            let arg = s.run.argv.last().unwrap().as_str();
+            let mut want = std::collections::BTreeSet::new();
+            match arg {
+                "." => {
+                    want.insert("repo/pkg/a.lua".to_string());
+                    want.insert("repo/pkg/build/x.lua".to_string());
+                }
+                "build" | "build/x.lua" => {
+                    want.insert("repo/pkg/build/x.lua".to_string());
+                }
+                ".." => {
+                    want.insert("repo/pkg/a.lua".to_string());
+                    want.insert("repo/pkg/build/x.lua".to_string());
+                }
+                _ => {} // `../build` is the excluded directory itself: what happens to it is the business of other scenarios
+            }
+            if arg == "../build" {
+                return f;
+            }
+            if o.code != 0 {
+                f.push(("exit-status".into(), format!("exit {}: {}", o.code, String::from_utf8_lossy(&o.stderr).chars().take(160).collect::<String>())));
+            }
+            let changed: std::collections::BTreeSet<String> = o.after.iter().filter(|(k, v)| k.ends_with(".lua") && o.before.get(*k).map(|x| &x.0) != Some(&v.0)).map(|(k, _)| k.clone()).collect();
+            if changed != want {
+                f.push(("wrong-selection".into(), format!("formatted: {:?}; selected: {:?}", changed, want)));
+            }
+            return f;
+        }
         let respect = s.desc.contains("respect_ignores=true");
         let o_ignored = s.desc.contains("other-styluaignore=Some");
         let a_ignored = s.desc.contains("cwd-styluaignore=Some(\"a.lua");
@@ -1920,6 +2022,8 @@ pub fn c17(thorough: bool, stats: &mut Stats) -> Vec<Failure> {
         // a forced configuration file (2-space indentation), alone and under a command line flag
         ("config-path", vec!["--config-path", "forced/custom.toml"]),
         ("config-path+flag", vec!["--config-path", "forced/custom.toml", "--indent-width", "7", "--quote-style", "ForceSingle"]),
+        // the user-level configuration in $HOME/.config while $XDG_CONFIG_HOME is set and holds nothing
+        ("home-config", vec!["--search-parent-directories"]),
         // a positive --glob pattern must not filter the stdin pseudo-file
         ("glob", vec!["-g", "**/*.lua"]),
         // an .editorconfig is present in these two (stylua.toml, when there, still comes first)
@@ -1962,6 +2066,10 @@ pub fn c17(thorough: bool, stats: &mut Stats) -> Vec<Failure> {
                     }
                     if oname.starts_with("config-path") {
                         t.add("forced/custom.toml", b"indent_type = \"Spaces\"\nindent_width = 6\n");
+                    }
+                    if *oname == "home-config" {
+                        t.add("_home/.config/stylua/stylua.toml", b"indent_type = \"Spaces\"\nindent_width = 3\nquote_style = \"AutoPreferSingle\"\n");
+                        t.add("_xdg/", b"");
                     }
                     if oname.ends_with("editorconfig") {
                         t.add(".editorconfig", b"root = true\n[*.lua]\nindent_style = space\nindent_size = 5\nquote_type = single\n");
@@ -2012,6 +2120,11 @@ pub fn c17(thorough: bool, stats: &mut Stats) -> Vec<Failure> {
             cfg.iw = 3;
             cfg.qs = 3;
             cfg.le = 1;
+        }
+        if oname == "home-config" && !*with_cfg {
+            cfg.it = 1;
+            cfg.iw = 3;
+            cfg.qs = 1;
         }
         if oname.starts_with("config-path") {
             // the forced file replaces whatever the search would find
@@ -2276,6 +2389,20 @@ pub fn c20(_thorough: bool, stats: &mut Stats) -> Vec<Failure> {
             }
         }
     }
+    // one invocation over two directories, the FIRST of which has a malformed stylua.toml: rejected, and no file is modified
+    for b in bad_reps {
+        let mut t = Tree::default();
+        t.add("bad/stylua.toml", format!("{}\n", b).as_bytes());
+        t.add("bad/a.lua", probe.as_bytes());
+        t.add("good/b.lua", probe.as_bytes());
+        for args in [vec!["bad", "good"], vec!["bad/a.lua", "good/b.lua"]] {
+            let mut argv: Vec<String> = vec!["--color".into(), "Never".into(), "--num-threads".into(), "1".into()];
+            argv.extend(args.iter().map(|x| x.to_string()));
+            let desc = format!("C20 malformed bad/stylua.toml {:?} next to a healthy directory args={:?}", b, args);
+            metas.push((desc.clone(), 120, d, true));
+            scs.push(Scenario { desc, tree: t.clone(), run: Run { argv, ..Run::default() } });
+        }
+    }
     // every carrier again with the text coming from stdin (two more callers of the configuration code), and the flag in
     // the presence of a file / .editorconfig that says something else (the flag still means what it says)
     for (w, v) in &all {
@@ -2425,7 +2552,7 @@ pub fn c20(_thorough: bool, stats: &mut Stats) -> Vec<Failure> {
             if o.code != 2 {
                 f.push(("malformed-config-accepted".into(), format!("exit {} for a malformed configuration file (expected 2)", o.code)));
             }
-            for p in ["f.lua", "sub/g.lua", "w/f.lua", "w/sub/g.lua"] {
+            for p in ["f.lua", "sub/g.lua", "w/f.lua", "w/sub/g.lua", "bad/a.lua", "good/b.lua"] {
                 if o.after.get(p).map(|x| &x.0) != o.before.get(p).map(|x| &x.0) {
                     f.push(("malformed-config-file-modified".into(), format!("{} was modified although the configuration is malformed", p)));
                 }
